@@ -243,6 +243,11 @@ def run_scan(cfg, ch):
         seq = m.autodiscover(spec[1])
     elif spec[0] == "tuple":
         seq = m.autodiscover((spec[1], spec[2]))
+    elif spec[0] in ("iter", "generator", "set", "map", "range"):
+        lst = list(spec[1:])
+        arg = {"iter": lambda: iter(lst), "generator": lambda: (a for a in lst), "set": lambda: set(lst),
+               "map": lambda: map(int, lst), "range": lambda: range(min(lst), max(lst) + 1)}[spec[0]]()
+        seq = m.autodiscover(arg)
     else:
         seq = m.autodiscover(list(spec[1:]))
     kind, val, n = run_sequence(seq, bus, 600)
@@ -256,6 +261,8 @@ def scanned_addresses(spec):
         return list(range(0, spec[1]))
     if spec[0] == "tuple":
         return list(range(spec[1], spec[2] + 1))
+    if spec[0] == "range":
+        return list(range(min(spec[1:]), max(spec[1:]) + 1))
     return list(spec[1:])
 
 
@@ -401,6 +408,12 @@ def run_shard(shard):
                     res["evaluations"] += 1
                     res["transitions"] += n
             cfg = dict(devices=[(1, "two-mixed"), (2, "one-pb"), (40, "type0")], spec="default", prior=prior)
+            bus, devs, m, kind, val, n = run_scan(cfg, None)
+            judge_scan(res, cfg, bus, devs, m, kind, val, n)
+            res["evaluations"] += 1
+        # "addresses" may be any iterable of ints: every spelling scans the same units
+        for spelling in ("list", "iter", "generator", "set", "map", "range"):
+            cfg = dict(devices=[(3, "two-mixed"), (7, "one-pb"), (20, "type0"), (63, "mixed-enabled")], spec=(spelling, 3, 7, 20, 63, 5))
             bus, devs, m, kind, val, n = run_scan(cfg, None)
             judge_scan(res, cfg, bus, devs, m, kind, val, n)
             res["evaluations"] += 1
